@@ -256,7 +256,7 @@ func TestVerifC03(t *testing.T) {
 		run(c.ID, c.Doc)
 	}
 	hr := r.Rand("c03", "hazard")
-	n := r.Pick(30000, 1000000)
+	n := r.Pick(30000, 3000000)
 	for i := 0; i < n; i++ {
 		run(fmt.Sprintf("hazard/%d", i), vHazardDoc(hr))
 	}
